@@ -114,6 +114,8 @@ type tcase struct {
 	I    int    `json:"i"`
 	J    int    `json:"j,omitempty"`
 	Vals []cval `json:"vals"`
+	// again: construct I evaluated with againVals[Again[0]], [1], [2] in turn
+	Again []int `json:"again,omitempty"`
 }
 
 func name(i int) string { return fmt.Sprintf("k%d", i) }
@@ -238,6 +240,85 @@ func checkValue(c *core.Ctx, p []cval, i int, pairs bool) {
 	}
 }
 
+// ---------------------------------------------------------------- one conditional evaluated again with another condition
+
+// The same construct (one syntax node inside a function) is evaluated three times with conditions of alternating
+// truth: every evaluation decides by the condition it is given, not by what an earlier evaluation found.
+type againVal struct {
+	src, repr string
+	truthy    bool
+}
+
+var againVals = []againVal{{"1", "1", true}, {`"a"`, `"a"`, true}, {"[0]", "[0]", true}, {"true", "true", true}, {"{B: true}", `{"B": true}`, true},
+	{"0", "0", false}, {`""`, `""`, false}, {"nil", "nil", false}, {"false", "false", false}, {"{B: 1}", `{"B": 1}`, false}, {"(-0.0)", "-0.000000", false}}
+
+func againSrc(ci int, vals []int) string {
+	var calls []string
+	for _, v := range vals {
+		calls = append(calls, fmt.Sprintf("nil.try.{|u| f(%s)}.A", againVals[v].src))
+	}
+	return prelude + "f := {|k| " + constructs[ci].body("k") + "}\n[" + strings.Join(calls, ", ") + "]"
+}
+
+func againWant(ci int, vals []int) (out, res string) {
+	cs := constructs[ci]
+	var parts []string
+	for _, v := range vals {
+		av := againVals[v]
+		o, r := cs.fOut, cs.fRes
+		if av.truthy {
+			o, r = cs.tOut, cs.tRes
+		}
+		if r == "" {
+			r = av.repr
+		}
+		out += o
+		if strings.HasPrefix(r, "E:") {
+			parts = append(parts, "[nil, ["+strings.TrimPrefix(r, "E:")+"]]")
+		} else {
+			parts = append(parts, "["+r+", nil]")
+		}
+	}
+	return out, "[" + strings.Join(parts, ", ") + "]"
+}
+
+func checkAgain(c *core.Ctx) {
+	k := 0
+	for ci := range constructs {
+		for a := range againVals {
+			for b := range againVals {
+				if againVals[a].truthy == againVals[b].truthy && a != b {
+					continue
+				}
+				k++
+				if !c.Mine(k) {
+					continue
+				}
+				judgeAgain(c, ci, []int{a, b, a})
+			}
+		}
+	}
+}
+
+func judgeAgain(c *core.Ctx, ci int, vals []int) {
+	src := againSrc(ci, vals)
+	o := c.R().EvalSrc(src, "")
+	c.Eval(1)
+	c.Nontrivial(1)
+	c.Validated(1)
+	wantOut, wantRes := againWant(ci, vals)
+	if o.Kind == "syntax" {
+		c.HarnessError("again program does not parse: %s: %s", src, o.ErrMsg)
+		return
+	}
+	ok := o.Kind == "value" && o.Repr == wantRes && o.Out == wantOut
+	c.Outcome("again:" + map[bool]string{true: "ok", false: "differs"}[ok])
+	if !ok {
+		c.Violation(core.Violation{Key: "evaluated-again/" + constructs[ci].name, Case: core.JSON(tcase{Kind: "again", I: ci, Again: vals}), Desc: strings.ReplaceAll(strings.TrimPrefix(src, prelude), "\n", "; "),
+			Expected: fmt.Sprintf("out=%q result=%s", wantOut, wantRes), Observed: fmt.Sprintf("out=%q %s", o.Out, show(o)), Repro: src + ".p\n"})
+	}
+}
+
 func run(c *core.Ctx) {
 	p := pool(true)
 	c.Note("pool_size", len(p))
@@ -255,12 +336,17 @@ func run(c *core.Ctx) {
 		}
 		checkValue(c, p, i, true)
 	}
+	checkAgain(c)
 }
 
 func replay(c *core.Ctx, raw json.RawMessage) {
 	var t tcase
 	if err := json.Unmarshal(raw, &t); err != nil {
 		c.HarnessError("bad case: %v", err)
+		return
+	}
+	if t.Kind == "again" {
+		judgeAgain(c, t.I, t.Again)
 		return
 	}
 	checkValue(c, t.Vals, 0, t.Kind == "pair")
